@@ -105,6 +105,8 @@ def correspond(ctx, corr, model_ok):
         corr.count('raw-byte injections', sc.raw_injected)
         corr.count('frame logging at DEBUG', 1 if sc.desc.get('debug_log') else 0)
         corr.count('fragmented', sc.fragmented)
+    corr.oracle_failures.extend(reused_id_oracle())
+    corr.count('a request re-using the id of a stream that is still active (all 16 type pairs, both roles)', 32)
     from harness import battery as _b
     _b.run(corr, ['aiohttp-websocket'])
     corr.oracle_failures.extend(failing_responder_oracle())
@@ -117,10 +119,26 @@ def correspond(ctx, corr, model_ok):
     corr.samples = [repr(EP.steps_of_log(sc.rec.log)[:3])[:400] for sc in runs[:3]]
 
 
+def reused_id_oracle():
+    """a protocol-violating sequence with a prescribed answer: a request on an id whose stream is still active is answered
+    with one ERROR[REJECTED] on that stream, reaches no handler, creates nothing and leaves the active stream as it was
+    (scenario and judgement shared with C13)"""
+    from harness.props import c13
+    out = []
+    for first in c13.REQT:
+        for second in c13.REQT:
+            for role in ('server', 'client'):
+                sc, res = c13.dup_scenario(first, second, role, first == second)
+                o = c13.dup_oracle(first, second, res)
+                if o:
+                    out.append({'what': 'hostile sequence: ' + o, 'reused_id_case': [first, second, role]})
+    return out
+
+
 def search(ctx, budget):
     import time
     t0 = time.time()
-    found = []
+    found = list(reused_id_oracle())
     while time.time() - t0 < budget and not found:
         runs, crashed = E.run_all(_descs(ctx, 40), post=probe)
         found.extend(crashed)
@@ -138,6 +156,8 @@ def replay(obj):
     case = obj.get('case') or obj
     if 'responder_case' in case:
         return bool(failing_responder_oracle())
+    if 'reused_id_case' in case:
+        return bool(reused_id_oracle())
     if 'websocket_case' in case:
         return bool(websocket_oracle())
     runs, crashed = E.run_all([case['scenario']], post=probe)
